@@ -1,4 +1,5 @@
 """gen.py — schema and configuration-text generators shared by the property modules."""
+import re
 from common import Opt, CFGF, hx, schema_sexpr
 
 F = CFGF
@@ -216,3 +217,103 @@ def _opt(sx):
         else:
             o.vals.append(v)
     return o
+
+
+# ---------------------------------------------------------------- by-name getters (getv / gettsec)
+GETV_ZERO = {'int': '0', 'flt': '0000000000000000', 'bool': '0', 'str': '-', 'ptr': 'p0', 'sec': 'null'}
+GETV_WRONG = {'int': 'str', 'flt': 'int', 'bool': 'int', 'str': 'flt', 'ptr': 'str', 'sec': 'int'}
+
+
+def getter_sweep(schema, ctx=0, maxidx=3, titles=(b'x', b'one')):
+    """`getv` lines reading every declared option of `schema` by name: top-level names, and the sub-options of section
+    options addressed as NAME|SUB, NAME=0|SUB, NAME=1|SUB; indices 0..maxidx, one huge index, one wrong kind"""
+    from common import hx
+    out = []
+
+    def one(path, o):
+        k = o.base() if o.kind != 'func' else None
+        if k is None:
+            return
+        for i in list(range(maxidx + 1)) + [4294967295]:
+            out.append('getv %d %s %s %d' % (ctx, k, hx(path), i))
+        if k != 'sec':
+            out.append('getv0 %d %s %s' % (ctx, k, hx(path)))
+        out.append('getv %d %s %s 0' % (ctx, GETV_WRONG[k], hx(path)))
+    for o in schema:
+        one(o.name, o)
+        if o.kind == 'sec':
+            for q in ((b'', b'=0', b'=1') if not o.flags & CFGF['TITLE'] else (b'',) + tuple(b'=' + t for t in titles)):
+                for so in o.sub:
+                    one(o.name + q + b'|' + so.name, so)
+    out.append('getv %d int %s 0' % (ctx, hx(b'nosuchoption')))
+    return out
+
+
+def getv_expected(tree, kind, path, idx):
+    """what cfg_getn<kind>(cfg, path, idx) answers on the dumped tree (paths as getter_sweep writes them)"""
+    from common import hx
+    steps = path.split(b'|')
+    cur, pos = tree, ''
+    o = None
+    for si, st in enumerate(steps):
+        name, eq, q = st.partition(b'=')
+        oi = next((i for i, x in enumerate(cur.opts) if x.name == name), None)
+        if oi is None:
+            return GETV_ZERO[kind]
+        o = cur.opts[oi]
+        if si == len(steps) - 1:
+            if eq:
+                return None          # not written by the sweep
+            break
+        if o.kind != 'sec':
+            return GETV_ZERO[kind]
+        if eq and not (o.titled or o.multi):
+            return None                  # a qualifier on a plain section: left to the model comparison
+        if eq and o.titled:              # a titled section: the qualifier is a title
+            k = next((j for j, v in enumerate(o.vals) if hasattr(v, 'opts') and v.title == q), len(o.vals))
+        else:
+            k = int(q) if eq else 0      # a step without qualifier is the first instance
+        if k >= len(o.vals) or not hasattr(o.vals[k], 'opts'):
+            return GETV_ZERO[kind]
+        pos += '/%d.%d' % (oi, k)
+        cur = o.vals[k]
+    dk = {'float': 'flt'}.get(o.kind, o.kind)
+    if dk != kind or idx >= len(o.vals):
+        return GETV_ZERO[kind]
+    v = o.vals[idx]
+    if kind == 'int':
+        return str(v)
+    if kind == 'str':
+        return '-' if v is None else (hx(v) if v else hx(b''))
+    if kind == 'sec':
+        return 'null' if not hasattr(v, 'opts') else pos + '/%d.%d' % (oi, idx)
+    return v
+
+
+def check_getters(scn, body, tree, schema):
+    """oracle clause: every `getv` / `getv0` of the scenario answers what the dumped tree holds"""
+    from common import unhx
+    out = []
+    titled = {o.name for o in schema if o.kind == 'sec' and o.flags & CFGF['TITLE']}
+    multi = {o.name for o in schema if o.kind == 'sec' and o.flags & CFGF['MULTI']}
+    for t in walk_opts(tree):
+        t.titled, t.multi = t.name in titled, t.name in multi
+    for i, l in enumerate(scn.lines):
+        if not (l.startswith('getv ') or l.startswith('getv0 ')) or i >= len(body):
+            continue
+        f = l.split()
+        kind, p, idx = f[2], f[3], (f[4] if len(f) > 4 else '0')
+        m = re.search(r' v=(\S+)', body[i])
+        got = m.group(1) if m else '?'
+        want = getv_expected(tree, kind, unhx(p), int(idx))
+        if want is not None and got != want:
+            out.append(('getter:' + kind, '%s: `%s` (%r) answered %s, the tree holds %s' % (scn.id, l, unhx(p), got, want)))
+    return out[:3]
+
+
+def walk_opts(c):
+    for o in c.opts:
+        yield o
+        for v in o.vals:
+            if hasattr(v, 'opts'):
+                yield from walk_opts(v)
